@@ -126,7 +126,33 @@ func (e ottoError) describe(format string, in ...interface{}) string {
 		// '%' must stay what it is.
 		return format
 	}
-	return fmt.Sprintf(format, in...)
+	// A Value is described without running script: fmt would call its String
+	// method, i.e. the toString of the script's object, a conversion no step of
+	// the failing operation asks for, and would swallow a panic raised in it.
+	described := make([]interface{}, len(in))
+	for i, argument := range in {
+		if value, ok := argument.(Value); ok {
+			argument = describeValue(value)
+		}
+		described[i] = argument
+	}
+	return fmt.Sprintf(format, described...)
+}
+
+func describeValue(value Value) string {
+	obj := value.object()
+	if obj == nil {
+		return value.string()
+	}
+	switch fn := obj.value.(type) {
+	case nativeFunctionObject:
+		return fmt.Sprintf("function %s() { [native code] }", fn.name)
+	case nodeFunctionObject:
+		return fn.node.source
+	case bindFunctionObject:
+		return "function () { [native code] }"
+	}
+	return "[object " + obj.class + "]"
 }
 
 func (e ottoError) messageValue() Value {
